@@ -747,6 +747,305 @@ def stage_cmp(rng, tier, gbin, gmodel, stats):
     return viol
 
 
+# ---------------------------------------------------------------- comparisons with a decimal operand
+from fractions import Fraction
+
+DEC_CMP_TYPES = [(4, 1), (4, 2), (10, 0), (10, 1), (10, 2), (9, 9), (17, 4), (18, 0), (18, 2), (18, 18), (19, 2), (19, 18), (20, 2),
+                 (38, 0), (38, 10), (38, 38), (10, -2)]
+DEC_CMP_PAIRS = [((10, 2), (10, 2)), ((10, 2), (4, 1)), ((4, 1), (10, 2)), ((10, 2), (10, 0)), ((10, 0), (10, 2)), ((10, 2), (10, 1)),
+                 ((18, 0), (18, 18)), ((18, 18), (18, 0)), ((18, 2), (19, 2)), ((19, 2), (18, 2)), ((18, 0), (19, 18)), ((38, 0), (38, 38)),
+                 ((38, 10), (20, 2)), ((20, 2), (38, 10)), ((10, -2), (10, 2)), ((17, 4), (9, 9)), ((38, 0), (38, 0)), ((20, 2), (4, 1)),
+                 ((18, 18), (18, 18)), ((4, 2), (4, 1))]
+CMP8 = ["<", "<=", "=", "<>", ">=", ">", "is distinct from", "is not distinct from"]
+RATIONALS = [Fraction(0), Fraction(1), Fraction(-1), Fraction(3, 2), Fraction(-3, 2), Fraction(3, 20), Fraction(15), Fraction(2), Fraction(1, 10),
+             Fraction(149, 100), Fraction(151, 100), Fraction(100), Fraction(9999, 100)]
+
+
+def opnd_type(o):
+    return "dec(%d,%d)" % (o[1], o[2]) if o[0] == "d" else o[1] if o[0] == "i" else "f64"
+
+
+def opnd_cell(o):
+    if o[-1] is None:
+        return "N"
+    if o[0] == "d":
+        return "D%d/%d/%d" % (o[3], o[1], o[2])
+    return ("I%d" if o[0] == "i" else "F%x") % o[-1]
+
+
+def opnd_model(o):
+    v = "N" if o[-1] is None else str(o[-1])
+    if o[0] == "d":
+        return "d:%d:%d:%d:%s" % (64 if o[1] <= 18 else 128, o[1], o[2], v)
+    if o[0] == "i":
+        return "i:%s:%d:%s" % (INT_TYPES[o[1]][1], INT_TYPES[o[1]][0], v)
+    return "f:" + v
+
+
+def dec_values(rng, p, s, n_extra):
+    lim = 10 ** p - 1
+    vs = set()
+    for r in RATIONALS:
+        u = r * Fraction(10) ** s
+        if u.denominator == 1 and abs(u.numerator) <= lim:
+            vs.add(u.numerator)
+    vs.update([lim, -lim, 1, -1, lim - 1, 0])
+    for x in ((1 << 53) + 1, (1 << 53), -(1 << 53) - 1):
+        if abs(x) <= lim:
+            vs.add(x)
+    for _ in range(n_extra):
+        vs.add(dec_val(rng, p, max(s, 0)))
+    return sorted(vs)
+
+
+def side_values(rng, kind, n_extra):
+    """operands of one side: ('d', p, s, v) | ('i', t, v) | ('f', bits), always including NULL"""
+    if kind[0] == "d":
+        return [("d", kind[1], kind[2], v) for v in dec_values(rng, kind[1], kind[2], n_extra)] + [("d", kind[1], kind[2], None)]
+    if kind[0] == "i":
+        lo, hi = lo_hi(kind[1])
+        vs = sorted(set(v for v in [0, 1, -1, 2, 15, 100, lo, hi, hi - 1, (1 << 53) + 1, 1 << 53, 10 ** 19, 10 ** 19 - 1] if lo <= v <= hi))
+        return [("i", kind[1], v) for v in vs] + [("i", kind[1], None)]
+    fl = [0.0, 1.5, -1.5, 0.1, 0.15, 2.0, 1.0, -1.0, 15.0, 9007199254740992.0, 9007199254740994.0, 1e20, 123456789012345678.0, 0.5, 1.49]
+    return [("f", gen.f64_bits(x)) for x in fl] + [("f", None)]
+
+
+def deccmp_class(tb, l, r, impl, spec):
+    """impl (== engine) differs from spec: the class of findings/C05num.json, or None"""
+    kinds = (l[0], r[0])
+    if "f" in kinds:
+        d = l if l[0] == "d" else r
+        if d[-1] is not None and (abs(d[3]) > (1 << 53) or d[2] > 22):
+            return "compare-decimal-float64-double-rounding"
+        return None
+    meta = lambda o: (o[1], o[2]) if o[0] == "d" else ({8: 3, 16: 5, 32: 10, 64: 19}[INT_TYPES[o[1]][0]] if not (o[1] == "u64") else tb.get("u64_dec_precision") or 19, 0)
+    (p1, s1), (p2, s2) = meta(l), meta(r)
+    is64 = lambda o: o[0] == "i" and INT_TYPES[o[1]][0] == 64
+    d64 = lambda o: o[0] == "d" and o[1] <= 18
+    if tb.get("decbind_i8") == 1 and (p1 - s1 > 127 or p2 - s2 > 127) and impl in ("panic", "err"):
+        return "decimal-bind-i8-overflow"
+    if tb.get("wide_dec128") == 0:
+        for a, b in ((l, r), (r, l)):
+            if is64(a) and a[1] == "i64" and d64(b):
+                ok = a[-1] is not None and b[-1] is not None and abs(a[-1]) >= (1 << 53) and impl not in ("err", "panic")
+                return "compare-int64-decimal64-via-float64" if ok else None
+            if is64(a) and a[1] == "u64" and d64(b) and impl == "err":
+                return "uint64-decimal-cast-fails"
+    if tb.get("u64_dec_precision") == 19:
+        for a in (l, r):
+            if a[0] == "i" and a[1] == "u64" and a[-1] is not None and a[-1] >= 10 ** 19 and impl == "err":
+                return "uint64-decimal-cast-fails"
+    kd_max = 38 if (p1 > 18 or p2 > 18 or (tb.get("wide_dec128") == 1 and (is64(l) or is64(r)))) else 18
+    if impl == "err" and spec != "err" and max(p1 - s1, p2 - s2) + max(s1, s2) > kd_max:
+        return "decimal-compare-clamped-precision-error"
+    return None
+
+
+def stage_deccmp(rng, tier, mode, tb, gbin, gmodel, stats, known):
+    quick = tier == "quick"
+    pairs = [(("d",) + a, ("d",) + b) for a, b in DEC_CMP_PAIRS]
+    if not quick:
+        pairs += [(("d",) + a, ("d",) + b) for a in DEC_CMP_TYPES for b in DEC_CMP_TYPES if (a, b) not in DEC_CMP_PAIRS]
+    ints = ["i8", "u8", "i32", "u32", "i64", "u64"] + ([] if quick else ["i16", "u16"])
+    for dt in ([(10, 2), (18, 0), (20, 2)] if quick else [(10, 2), (18, 0), (18, 4), (20, 2), (38, 10), (4, 1)]):
+        for it in ints:
+            pairs += [(("d",) + dt, ("i", it)), (("i", it), ("d",) + dt)]
+    for dt in ([(10, 2), (18, 4)] if quick else [(10, 2), (18, 4), (38, 10), (38, 30), (18, 18)]):
+        pairs += [(("d",) + dt, ("f",)), (("f",), ("d",) + dt)]
+    pairs.append((("d", 38, -100), ("d", 5, 2)))           # precision - scale beyond an i8
+    head = "deccmp %d %d %d %s" % (1 if tb.get("decbind_i8") != 0 else 0, tb.get("u64_dec_precision") or 19, 1 if tb.get("wide_dec128") == 1 else 0, mode)
+    plans, lines = [], []
+    for (lk, rk) in pairs:
+        nx = 1 if quick else 4
+        lv = side_values(rng, lk, nx) if lk != ("d", 38, -100) else [("d", 38, -100, None)]
+        rv = side_values(rng, rk, nx)
+        if quick:
+            trim = lambda vs: vs if len(vs) <= 11 else vs[:3] + rng.shuffle(vs[3:-4])[:4] + vs[-4:]
+            lv, rv = trim(lv), trim(rv)
+        plans.append((lk, rk, lv, rv))
+        lines += ["%s %s %s" % (head, opnd_model(a), opnd_model(b)) for a in lv for b in rv]
+    mout = common.run_model(gmodel, "numfn", lines, timeout=900)
+    viol, cases, meta, pos = [], [], [], 0
+
+    def lit(o):
+        return sql_lit(opnd_type(o), opnd_cell(o)) if o[-1] is not None else "cast(NULL as %s)" % gen.tinfo(opnd_type(o))[0]
+
+    for pi, (lk, rk, lv, rv) in enumerate(plans):
+        res = {}
+        for i, a in enumerate(lv):
+            for j, b in enumerate(rv):
+                res[(i, j)] = mout[pos].split(); pos += 1
+        nl, nr = len(lv) - 1, len(rv) - 1           # index of the NULL operand of each side
+        classes = set(f[0] for f in res.values())
+        ta, tbt = opnd_type(lv[0]), opnd_type(rv[0])
+        setup = lambda ls, rs: [gen.create_table("x", [("i", "i32"), ("a", ta)]), gen.create_table("y", [("j", "i32"), ("b", tbt)])] + \
+            insert_rows("x", [("i", "i32"), ("a", ta)], [["I%d" % i, opnd_cell(lv[i])] for i in ls]) + \
+            insert_rows("y", [("j", "i32"), ("b", tbt)], [["I%d" % j, opnd_cell(rv[j])] for j in rs])
+        col_q = "select i, j, %s from x, y" % ", ".join("a %s b" % o for o in CMP8)
+        if classes <= {"err", "panic"} and len(classes) == 1:
+            # decided when the statement is planned: every pair has this outcome
+            stmts = setup(range(len(lv)), range(len(rv))) + [col_q]
+            cases.append({"id": "dcmp-%d-bind" % pi, "mode": "det", "partitions": 1, "stmts": stmts, "timeout_s": 60})
+            meta.append(("bind", pi, lv, rv, res, stmts, None, None))
+            continue
+        bad_l = [i for i in range(len(lv)) if res[(i, nr)][0] in ("err", "panic")]
+        bad_r = [j for j in range(len(rv)) if res[(nl, j)][0] in ("err", "panic")]
+        good_l = [i for i in range(len(lv)) if i not in bad_l]
+        good_r = [j for j in range(len(rv)) if j not in bad_r]
+        leftover = [(i, j) for i in good_l for j in good_r if res[(i, j)][0] in ("err", "panic")]
+        if leftover:
+            viol.append({"kind": "model-shape", "what": "a failing pair whose sides do not fail on their own", "types": [ta, tbt]})
+            continue
+        stmts = setup(good_l, good_r)
+        idx = {}
+        stmts.append(col_q); idx["column"] = len(stmts) - 1
+        stmts.append("select i, j, %s from x, y" % ", ".join("case when a %s b then 1 else 0 end" % o for o in CMP8)); idx["case"] = len(stmts) - 1
+        for k, o in enumerate(CMP8):
+            stmts.append("select i, j from x, y where a %s b" % o); idx["where%d" % k] = len(stmts) - 1
+        stmts.append("select i, j from x join y on a = b"); idx["join"] = len(stmts) - 1
+        litp = [(rng.choice(good_l), rng.choice(good_r)) for _ in range(6)] + [(i, j) for i in good_l for j in good_r if res[(i, j)][0] == "eq"][:3]
+        stmts.append("select " + ", ".join("%s %s %s" % (lit(lv[i]), o, lit(rv[j])) for i, j in litp for o in CMP8)); idx["literal"] = len(stmts) - 1
+        cases.append({"id": "dcmp-%d" % pi, "mode": "det", "partitions": 1, "stmts": stmts, "timeout_s": 120})
+        meta.append(("rows", pi, lv, rv, res, stmts, idx, (good_l, good_r, litp)))
+        # values whose own cast fails: one statement each, with a partner that is fine
+        for side, bad in (("l", bad_l[:3]), ("r", bad_r[:3])):
+            for k in bad:
+                i, j = (k, (good_r or [nr])[0]) if side == "l" else ((good_l or [nl])[0], k)
+                st = ["select %s = %s" % (lit(lv[i]), lit(rv[j]))]
+                cases.append({"id": "dcmp-%d-%s%d" % (pi, side, k), "mode": "det", "partitions": 1, "stmts": st, "timeout_s": 30})
+                meta.append(("one", pi, lv, rv, res, st, None, (i, j)))
+    real = common.run_harness(gbin, "sql", cases, timeout=1800)
+
+    def judge(lv, rv, res, i, j, eng8, ctx, sql):
+        """eng8: the engine's eight answers as 1/0/N, or an outcome class"""
+        impl, spec, impl8, spec8 = res[(i, j)]
+        stats["evaluations"] += 1
+        stats["distinct"].add(("deccmp", opnd_type(lv[i]), opnd_type(rv[j]), ctx, impl, spec))
+        want = impl8 if impl8 != "-" else impl
+        info = {"kind": "decimal-comparison", "types": [opnd_type(lv[i]), opnd_type(rv[j])], "args": [opnd_cell(lv[i]), opnd_cell(rv[j])], "context": ctx,
+                "engine": eng8, "model": want, "definition": spec8 if spec8 != "-" else spec, "stmts": sql}
+        if eng8 != want:
+            info["what"] = "engine differs from the faithful model" + (" and from the definition" if eng8 != info["definition"] else " (model out of date)")
+            viol.append(info)
+            return
+        if want == info["definition"]:
+            return
+        cls = deccmp_class(tb, lv[i], rv[j], impl, spec)
+        if cls is None:
+            info["what"] = "result differs from the order of the exact values"
+            viol.append(info)
+        else:
+            k = known.setdefault(cls, {"count": 0, "example": dict(info, outcome=eng8)})
+            k["count"] += 1
+
+    def one_sql(lv, rv, i, j, op):
+        return ["select %s %s %s" % (lit(lv[i]), op, lit(rv[j]))]
+
+    for (kind, pi, lv, rv, res, stmts, idx, extra), r in zip(meta, real):
+        if kind == "bind":
+            o = case_stmt(r, -1, len(stmts))
+            eng = o[0] if o[0] != "ok" else "ok"
+            judge(lv, rv, res, 0, len(rv) - 1 if len(rv) > 1 else 0, eng, "column", stmts[-3:])
+            continue
+        if kind == "one":
+            i, j = extra
+            o = case_stmt(r, 0, 1)
+            if o[0] == "ok":
+                c = o[1][0][0]
+                eng = {"B1": "eq-true", "B0": "eq-false", "N": "eq-null"}.get(c, c)
+                # the model says this pair fails: a value means the model is out of date or the definition is met
+                impl, spec, impl8, spec8 = res[(i, j)]
+                viol.append({"kind": "decimal-comparison", "what": "the model predicts a failing cast, the engine returned a value", "args": [opnd_cell(lv[i]), opnd_cell(rv[j])],
+                             "engine": eng, "model": impl, "definition": spec8, "stmts": stmts})
+                stats["evaluations"] += 1
+            else:
+                judge(lv, rv, res, i, j, o[0], "literal", stmts)
+            continue
+        good_l, good_r, litp = extra
+        outs = {k: case_stmt(r, v, len(stmts)) for k, v in idx.items()}
+        failed = [k for k, o in outs.items() if o[0] != "ok"]
+        if failed:
+            k = failed[0]
+            viol.append({"kind": "decimal-comparison-statement-failed", "types": [opnd_type(lv[0]), opnd_type(rv[0])], "context": k, "outcome": list(outs[k])[:2],
+                         "stmts": stmts[:2] + ["..."] + [stmts[idx[k]]]})
+            continue
+        enc = lambda c: "1" if c in ("B1", "I1") else "0" if c in ("B0", "I0") else "N"
+        seen = set()
+        for row in outs["column"][1]:
+            i, j = int(row[0][1:]), int(row[1][1:])
+            seen.add((i, j))
+            judge(lv, rv, res, i, j, "".join(enc(c) for c in row[2:]), "column", one_sql(lv, rv, i, j, "="))
+        if seen != set((i, j) for i in good_l for j in good_r):
+            viol.append({"kind": "decimal-comparison", "what": "cross join lost or invented rows", "types": [opnd_type(lv[0]), opnd_type(rv[0])]})
+        for row in outs["case"][1]:
+            i, j = int(row[0][1:]), int(row[1][1:])
+            got = "".join(enc(c) for c in row[2:])
+            want = res[(i, j)][2].replace("N", "0")
+            stats["evaluations"] += 1
+            if got != want:
+                viol.append({"kind": "decimal-comparison", "what": "CASE WHEN a op b differs from the projected comparison", "args": [opnd_cell(lv[i]), opnd_cell(rv[j])],
+                             "engine": got, "model": want, "stmts": ["select case when %s = %s then 1 else 0 end" % (lit(lv[i]), lit(rv[j]))]})
+        for k, o in enumerate(CMP8):
+            got = set((int(row[0][1:]), int(row[1][1:])) for row in outs["where%d" % k][1])
+            exp = set((i, j) for i in good_l for j in good_r if res[(i, j)][2][k] == "1")
+            stats["evaluations"] += len(good_l) * len(good_r)
+            for (i, j) in sorted(got ^ exp)[:2]:
+                viol.append({"kind": "decimal-comparison", "what": "WHERE a %s b keeps a different set of pairs than the projected comparison" % o,
+                             "args": [opnd_cell(lv[i]), opnd_cell(rv[j])], "engine_keeps": (i, j) in got, "model_keeps": (i, j) in exp,
+                             "stmts": ["select 1 where %s %s %s" % (lit(lv[i]), o, lit(rv[j]))]})
+        got = sorted((int(row[0][1:]), int(row[1][1:])) for row in outs["join"][1])
+        exp = sorted((i, j) for i in good_l for j in good_r if res[(i, j)][2][2] == "1")
+        stats["evaluations"] += len(good_l) * len(good_r)
+        if got != exp:
+            d = (sorted(set(got) ^ set(exp)) or [(0, 0)])[0]
+            viol.append({"kind": "decimal-comparison", "what": "equi-join on decimal keys of different types pairs other rows than a = b does",
+                         "types": [opnd_type(lv[0]), opnd_type(rv[0])], "args": [opnd_cell(lv[d[0]]), opnd_cell(rv[d[1]])], "engine_pairs": len(got), "model_pairs": len(exp),
+                         "stmts": stmts[:2] + ["..."] + [stmts[idx["join"]]]})
+        cells = outs["literal"][1][0]
+        for n, (i, j) in enumerate(litp):
+            judge(lv, rv, res, i, j, "".join(enc(c) for c in cells[8 * n:8 * n + 8]), "literal", one_sql(lv, rv, i, j, "="))
+    # ---- UNION ALL of differently typed decimals: the values must survive; ORDER BY / GROUP BY over them
+    ucases, umeta = [], []
+    for (a, b) in [((10, 2), (4, 1)), ((4, 1), (10, 2)), ((10, 2), (20, 0)), ((18, 0), (18, 18)), ((10, 0), (10, 2)), ((38, 10), (20, 2)), ((4, 2), (4, 2))]:
+        va = [v for v in dec_values(rng, a[0], a[1], 0)][:8]
+        vb = [v for v in dec_values(rng, b[0], b[1], 0)][:8]
+        ta, tbt = "dec(%d,%d)" % a, "dec(%d,%d)" % b
+        stmts = [gen.create_table("x", [("a", ta)]), gen.create_table("y", [("b", tbt)])] + \
+            insert_rows("x", [("a", ta)], [["D%d/%d/%d" % (v, a[0], a[1])] for v in va]) + insert_rows("y", [("b", tbt)], [["D%d/%d/%d" % (v, b[0], b[1])] for v in vb]) + \
+            ["select v from (select a as v from x union all select b from y) t order by v",
+             "select v, count(*) from (select a as v from x union all select b from y) t group by v"]
+        ucases.append({"id": "dunion-%d" % len(ucases), "mode": "det", "partitions": 1, "stmts": stmts, "timeout_s": 60})
+        umeta.append((a, b, va, vb, stmts))
+    frac = lambda cell: Fraction(int(cell[1:].split("/")[0])) / Fraction(10) ** int(cell[1:].split("/")[2])
+    for (a, b, va, vb, stmts), r in zip(umeta, common.run_harness(gbin, "sql", ucases, timeout=300)):
+        exp = sorted([Fraction(v) / Fraction(10) ** a[1] for v in va] + [Fraction(v) / Fraction(10) ** b[1] for v in vb])
+        o1, o2 = case_stmt(r, -2, len(stmts)), case_stmt(r, -1, len(stmts))
+        stats["evaluations"] += 2
+        need = max(a[0] - a[1], b[0] - b[1]) + max(a[1], b[1])
+        info = {"kind": "decimal-union", "types": ["dec(%d,%d)" % a, "dec(%d,%d)" % b], "stmts": stmts[:2] + ["..."] + stmts[-2:]}
+        if o1[0] != "ok" or o2[0] != "ok":
+            if need <= 38:
+                d = dict(info, what="UNION ALL of two decimal types failed although decimal(%d,%d) holds both" % (need, max(a[1], b[1])), outcome=list(o1)[:2])
+                if o1[0] == "err" and "Failed cast decimal" in str(o1[1]):
+                    # the same unification to one side's type: the other side's values do not fit it
+                    k = known.setdefault("setop-decimal-unification-rounds", {"count": 0, "example": d})
+                    k["count"] += 1
+                else:
+                    viol.append(d)
+            continue
+        got = [frac(row[0]) for row in o1[1]]
+        grp = sorted((frac(row[0]), int(row[1][1:])) for row in o2[1])
+        egrp = sorted((v, exp.count(v)) for v in set(exp))
+        if got != exp or grp != egrp:
+            d = dict(info, engine=[str(x) for x in got[:10]], definition=[str(x) for x in exp[:10]])
+            if sorted(got) == got and len(got) == len(exp):
+                k = known.setdefault("setop-decimal-unification-rounds", {"count": 0, "example": dict(d, outcome="values changed")})
+                k["count"] += 1
+            else:
+                viol.append(dict(d, what="UNION ALL / ORDER BY over decimals of two types"))
+    return viol
+
+
 def stage_mixed_notes(gbin):
     """observations, not requirements: how a UNION of a signed and an unsigned 64-bit column is typed, what SUM / AVG over UInt64 return"""
     probes = {"union_bigint_ubigint": "select v from (select cast(5 as bigint) as v union all select cast(5 as ubigint)) t",
@@ -793,6 +1092,7 @@ def run(ctx):
             e["count"] += d["count"]
         per_profile[profile] = {"jobs": len(jobs), "tuples": sum(len(j.tuples or []) for j in jobs)}
     viol += stage_cmp(rng, tier, bins["dev"], gmodel, stats)
+    viol += stage_deccmp(rng, tier, "d", tb, bins["dev"], gmodel, stats, known)
     notes = stage_mixed_notes(bins["dev"])
     listed = {e["id"]: e for e in common.known_findings()["known"] if e.get("property") == PID}
     for fid in sorted(known):
@@ -832,7 +1132,7 @@ def run(ctx):
                 "findings/C05num.json. gcd lcm & | xor: all 65 536 Int8 pairs (and UInt8 for the bitwise ones) built in the engine; << >> ~: all 256 "
                 "values x boundary counts; 16/32/64-bit and unsigned types: boundary-biased pairs; factorial -3..40 and the Int64 limits; round over a "
                 "(p,s) grid x digit counts incl. negative, >= s, +-128, i64 limits; abs sign ceil floor trunc round over all integer types and a decimal "
-                "grid, results compared by Float64 bit pattern; the six comparisons between operands of any two of the eight integer types over boundary pools (MIN, 2^53+-1, 2^63-1, 2^63, 2^64-1, ...) against the comparison of the integers (extracted spec_cmp; no transcription of the implicit casts): projected, inside CASE, as WHERE predicate, constant-folded, as key of an inner and a left equi-join; per type ORDER BY / GROUP BY / min / max. distinct = distinct (function, type, context, model class, definition class, profile).",
+                "grid, results compared by Float64 bit pattern; the six comparisons between operands of any two of the eight integer types over boundary pools (MIN, 2^53+-1, 2^63-1, 2^63, 2^64-1, ...) against the comparison of the integers (extracted spec_cmp; no transcription of the implicit casts): projected, inside CASE, as WHERE predicate, constant-folded, as key of an inner and a left equi-join; per type ORDER BY / GROUP BY / min / max. Comparisons with a decimal operand (decimal ~ decimal over a (p,s) grid incl. equal scales, either scale larger, scale 0 and negative, maximum precision, the Decimal64/128 boundary, clamped common precision; decimal ~ integer of every width; decimal ~ Float64; both operand orders; values equal after rescaling, differing in the last digit, negatives, zero, NULL): the six operators and IS [NOT] DISTINCT FROM projected, inside CASE, as WHERE predicate, constant-folded and as equi-join key against the extracted transcription of decimal_bind and the binder's resolution (must agree always) and against the order of the exact values (deviations must fall in a listed class); UNION ALL of two decimal types must keep every value (ORDER BY / GROUP BY over it, expectation by exact rational arithmetic in the check). distinct = distinct (function, type, context, model class, definition class, profile).",
         "samples": [known[k]["example"] for k in sorted(known)][:4],
         "profiles": per_profile, "batch_statements": stats["batch_statements"],
         "known_classes_reproduced": {k: v["count"] for k, v in known.items()},
